@@ -6788,6 +6788,23 @@ impl RelationalEngine {
 
         let row_id = slab_row_id.as_u64() + 1;
 
+        // The new row belongs to this transaction until it ends: lock it like any other
+        // written row, so no other transaction can update or delete it before commit/rollback.
+        if let Err(info) = self
+            .tx_manager
+            .lock_manager()
+            .try_lock(tx_id, &[(table.to_string(), row_id)])
+        {
+            // Another transaction grabbed the row between the insert and the lock: undo the insert.
+            let _ = self.slab().delete(table, slab_row_id);
+            return Err(RelationalError::LockConflict {
+                tx_id,
+                blocking_tx: info.blocking_tx,
+                table: info.table,
+                row_id: info.row_id,
+            });
+        }
+
         // Update row counter
         self.row_counters
             .entry(table.to_string())
